@@ -10,7 +10,10 @@ EXTRA = {"C01-2": ["C07"], "C04-1": ["C07"], "C06-2": ["C07"], "C03-b1": ["C07"]
          "C02-1": [], "C19-1": ["C06"], "C19-2": ["C05"], "C10-1": ["C09"], "C13-2": ["C08"], "C07-2": ["C08", "C16"], "C09-1": ["C10", "C12"],
          "C09-2": ["C10"], "C08-b2": ["C12"], "C16-2": ["C07"],
          "C03-r2": ["C07"], "C04-r2": ["C07"], "C01-s1": ["C07"], "C03-s1": ["C07"], "C04-s1": ["C07"], "C04-s2": ["C13"],
-         "C11-s1": ["C12", "C13"], "C02-s2": ["C01"], "C09-s1": ["C01"]}
+         "C11-s1": ["C12", "C13"], "C02-s2": ["C01"], "C09-s1": ["C01"],
+         "C01-t1": ["C18", "C15"], "C01-t2": ["C07", "C05", "C16"], "C02-t2": ["C01", "C09"], "C03-t2": ["C05"], "C04-t2": ["C07", "C16"],
+         "C05-t1": ["C03", "C15"], "C05-t2": ["C17"], "C06-t1": ["C07"], "C19-t2": ["C07"], "C11-t1": ["C13"], "C09-t1": ["C01", "C02"],
+         "C15-t1": ["C05", "C11"], "C18-t1": ["C01"], "C18-t2": ["C11"], "C11-t2": ["C18"], "C16-t2": ["C12"], "C12-t2": ["C16"]}
 def run_one(name, checks):
     d = os.path.join(SEEDED, name)
     wt = tempfile.mkdtemp(prefix="hsv-mx-", dir="/tmp"); os.rmdir(wt)
